@@ -27,7 +27,8 @@ def comparisons(rng, tier):
 
 def setitem(rng, tier):
     a = native.algopy(); U = a.UTPM
-    idxs = [0, -1, slice(1, None), slice(None, None, 2), Ellipsis, (0, 1), (slice(None), 0), (1, slice(None, None, -1)), (Ellipsis, -1), numpy.int64(1), (slice(0, 2), slice(1, 3))]
+    idxs = [0, -1, slice(1, None), slice(None, None, 2), Ellipsis, (0, 1), (slice(None), 0), (1, slice(None, None, -1)), (Ellipsis, -1), numpy.int64(1), (slice(0, 2), slice(1, 3)),
+            [0, 2], numpy.array([True, False, True]), (slice(None), [2, 0]), -2, slice(-2, None), (numpy.newaxis, 0)]
     for (D, P) in ((1, 1), (3, 2)):
         for shp in ((3,), (3, 3)):
             for sl in idxs:
